@@ -112,7 +112,7 @@ class GuardExtractor:
             cur = nx[0]
         return None
 
-    def _variant_flag(self, l):
+    def _variant_flag(self, l, depth=0):
         """`matches!(X, Some(_))` / `matches!(X, None)` materialise the pattern test as a bool: `_l = true` in the block a two-way
         discriminant switch on X (Option / Result) enters for one variant, `_l = false` on the other side."""
         ds = self.b.defs.get(l, [])
@@ -125,6 +125,19 @@ class GuardExtractor:
             t = self.b.B[bi]['term']
             if t['k'] != 'switch' or t['d']['k'] not in ('copy', 'move') or t['d']['pl']['p']:
                 continue
+            # `matches!(x, Pat(r) if r.a != b)`: the block that sets the flag is entered from a two-way branch on a comparison --
+            # the innermost test of the pattern stands for the flag (the outer variant tests only narrow it)
+            cl = t['d']['pl']['l']
+            if self.b.fn['locals'][cl]['ty'] == 'bool' and len(t['ts']) == 1 and len(self.b.preds(T)) == 1 and cl != l and depth < 4:
+                v, tgt = t['ts'][0]
+                false_t, true_t = (tgt, t['o']) if v == '0' else (t['o'], tgt)
+                rel = self.cond_of_local(cl, depth + 1)
+                if T == true_t:
+                    return rel
+                if T == false_t:
+                    if rel[0] in NEG:
+                        return (NEG[rel[0]], rel[1], rel[2])
+                    return ('not' if rel[0] == 'truth' else 'truth', rel[1], '')
             for d in self.b.defs.get(t['d']['pl']['l'], []):
                 if d[0] != 'st' or d[1]['k'] != 'discr':
                     continue
@@ -146,7 +159,7 @@ class GuardExtractor:
     def cond_of_local(self, l, depth=0):
         ds = self.b.defs.get(l, [])
         if len(ds) > 1:
-            vf = self._variant_flag(l)
+            vf = self._variant_flag(l, depth)
             if vf:
                 return vf
         if len(ds) != 1 or depth > 6:
